@@ -5,8 +5,8 @@ import Driver.Util
   `C09 hist <orig 0|1> <init> <ops>`
     init : 6 comma separated on-disk dtypes (`u8 i16 i32 f32 f64`) or `-` (file absent), in the order
            a.nii a.nii.gz b.nii a.img a.mgh a.mgz; file i starts with data id i, affine id i, tag 0, unscaled
-    ops  : comma separated  L<path 0-5><mmap 0|1> | F | U | E<k> | A<k> | D<dt> | S<path> | B
-  output: one token per op, then `live=…` and `fs=…` (nothing after the first `BAD`).
+    ops  : comma separated  L<path 0-5><mmap 0|1>[@spelling] | F | U | E<k> | A<k> | D<dt> | S<path>[@spelling] | B
+  output: one token per op, then `live=…` and `fs=…` (nothing after the first `BAD`, also not after `live=BAD`).
 -/
 namespace Nb.Drv.C09
 open Nb.C09
@@ -28,7 +28,16 @@ def parsePath? (s : String) : Option Path := s.toNat?.bind pathOf?
 def showCls : Cls → String
   | .nifti1 => "N1" | .pair => "NP" | .mgh => "MG"
 
-def parseOp? (s : String) : Option Op :=
+/-- `L01@3` / `S0@4`: the `@k` suffix selects one of several SPELLINGS of the same file (absolute, relative,
+    `./`, `sub/../`, symbolic link, hard link, header name of a pair); all spellings denote one abstract path -/
+def stripSpelling (s : String) : String :=
+  match s.splitOn "@" with
+  | [a] => a
+  | [a, k] => if k.toNat?.isSome then a else "?"
+  | _ => "?"
+
+def parseOp? (s0 : String) : Option Op :=
+  let s := stripSpelling s0
   if s = "F" then some .fdata
   else if s = "U" then some .uncache
   else if s = "B" then some .toBytes
@@ -87,7 +96,10 @@ def showLive (s : St) : String :=
 
 /-- run, printing tokens; mirrors `Nb.C09.run` (stops at the first bad) -/
 def runShow (orig : Bool) : St → List Op → List String
-  | s, [] => [showLive s, "fs=" ++ ";".intercalate (Path.all.map (fun p => showFile p (s.fs p)))]
+  | s, [] =>
+      let l := showLive s
+      if l = "live=BAD" then [l]
+      else [l, "fs=" ++ ";".intercalate (Path.all.map (fun p => showFile p (s.fs p)))]
   | s, op :: rest =>
     match step orig s op with
     | (.bad, _) => [showOut op s.img .bad]
